@@ -8,6 +8,7 @@
 
 static vreport vr_static;
 vreport       *vr = &vr_static;
+int            vr_abort_on_fail; // libFuzzer targets: abort() so the input is saved as a crash artifact
 
 static int
 hexv(int c)
@@ -154,5 +155,7 @@ vr_fail(const char *sig, const char *fmt, ...)
 	va_end(ap);
 	fprintf(stderr, "VERIF-FAIL sig=%s at op %d (%s): %s\n", vr->sig, vr->opidx, vr->lastop, vr->msg);
 	fflush(stderr);
+	if (vr_abort_on_fail)
+		abort();
 	_exit(1);
 }
